@@ -2,11 +2,8 @@
    yields the canonical text of the item with that identity; with the page theorem, the rewritten file compiles
    to the note that carries the ZID, and the body the index stores is that note's body. *)
 From Zorg Require Import Base.PyStr Base.Sexp Base.Res Base.Dates Gen.Params Proofs.PyStrFacts Model.Zid Model.FileListener
-  Model.QueryListener Model.PageSyntax Model.PageText Model.WriteBack Proofs.WriteBackFacts Proofs.PageFacts.
+  Model.QueryListener Model.PageSyntax Model.PageText Model.WriteBack Proofs.WriteBackFacts Proofs.PageFacts Model.PageLines.
 
-Definition prio_words (it : item) : list str := match i_prio it with Some p => [p] | None => [] end.
-Definition line_words (it : item) : list str :=
-  kind_text (i_kind it) :: prio_words it ++ map word_text (item_words it).
 
 Lemma words_text_join ws : forall x, x ++ words_text ws = join [sp] (x :: map word_text ws).
 Proof.
@@ -25,9 +22,6 @@ Qed.
 
 (* the item after its ZID has been written: identity = the ZID; an ordinary first word stays a word, a long
    creation date is replaced *)
-Definition with_zid (z : str) (it : item) : item :=
-  mkItem (i_kind it) (i_prio it) (IZid z)
-         (match i_ident it with IPlain s => WId s :: i_words it | _ => i_words it end).
 
 Definition zidless_ok (it : item) : Prop :=
   match i_ident it with
@@ -155,9 +149,6 @@ Proof.
 Qed.
 
 (* ---- C11: the modify date written in front of the ZID ---- *)
-Definition with_mdate (d : str) (it : item) : item :=
-  mkItem (i_kind it) (i_prio it)
-         (match i_ident it with IZid z | IModZid _ z => IModZid d z | x => x end) (i_words it).
 Definition stampable (it : item) : Prop :=
   match i_ident it with
   | IZid z => is_prio_word z = false /\ six_digits z = false
